@@ -62,6 +62,7 @@ type Contract struct {
 	Traced   bool
 	NoInline bool
 	NoMerge  bool // explore paths separately (no state merging at joins)
+	allSpecFuncs []string
 	Bounded  string // free text: function is checked by a bounded stand-in only
 }
 
@@ -206,6 +207,13 @@ func parseSpecFile(path string) (*SpecFile, error) {
 				return nil, fmt.Errorf("line %d: %v", l.no, err)
 			}
 		}
+	}
+	var sftexts []string
+	for _, n := range sf.FuncOrder {
+		sftexts = append(sftexts, sf.Funcs[n].Text)
+	}
+	for _, c := range sf.Contracts {
+		c.allSpecFuncs = sftexts
 	}
 	return sf, nil
 }
@@ -709,4 +717,17 @@ func matchBracket(s string, i int) int {
 		}
 	}
 	return -1
+}
+
+// rawTexts: the source text of every clause (and of the spec functions, which
+// clauses may call), for cheap "does this contract mention X" questions.
+func (c *Contract) rawTexts() []string {
+	var out []string
+	for _, cl := range c.Clauses {
+		out = append(out, cl.Text)
+	}
+	if c.allSpecFuncs != nil {
+		out = append(out, c.allSpecFuncs...)
+	}
+	return out
 }
